@@ -292,6 +292,28 @@ def control_deps_transitive(fn):
     return out
 
 
+def _rename_fields(j, ren):
+    """apply {(owner, field): canonical} to place projections, aggregates and ADT definitions of the loaded facts"""
+    owners = {o for (o, _n) in ren}
+    for a in j["adts"]:
+        if a["path"] in owners:
+            for v in a.get("variants", []):
+                for f in v["fields"]:
+                    f["name"] = ren.get((a["path"], f["name"]), f["name"])
+    stack = [j["fns"]]
+    while stack:
+        x = stack.pop()
+        if isinstance(x, dict):
+            ow = x.get("owner")
+            if ow in owners and "name" in x and (ow, x["name"]) in ren:
+                x["name"] = ren[(ow, x["name"])]
+            if x.get("k") == "agg" and x.get("adt") in owners and isinstance(x.get("fields"), list):
+                x["fields"] = [ren.get((x["adt"], n), n) for n in x["fields"]]
+            stack.extend(v for v in x.values() if isinstance(v, (dict, list)))
+        elif isinstance(x, list):
+            stack.extend(v for v in x if isinstance(v, (dict, list)))
+
+
 class Mir:
     def __init__(self, path, canonical_roles=True):
         with open(path) as f:
@@ -309,6 +331,14 @@ class Mir:
             if self.type_ren:
                 raw = re.sub(r"\b(%s)\b" % "|".join(re.escape(k) for k in self.type_ren), lambda m: self.type_ren[m.group(1)], raw)
                 self.j = json.loads(raw)
+            # fields of private structs, found by their type, under their canonical names (kv/roles.py FIELD_CANON)
+            from .roles import field_renames
+            try:
+                self.field_ren = field_renames(self.j["adts"])
+            except Exception:
+                self.field_ren = {}
+            if self.field_ren:
+                _rename_fields(self.j, self.field_ren)
         self.fns = {}
         self.by_path = defaultdict(list)
         for fj in self.j["fns"]:
